@@ -23,6 +23,7 @@ func main() {
 	corpus := flag.String("corpus", "", "corpus file (JSON lines), run first")
 	cases := flag.String("cases", "", "run exactly these cases (replay)")
 	out := flag.String("out", "", "result JSON path")
+	worker := flag.Bool("worker", false, "internal: run as a case worker")
 	flag.Parse()
 
 	streams := map[string]Stream{
@@ -35,6 +36,10 @@ func main() {
 	if !ok {
 		fmt.Fprintln(os.Stderr, "unknown stream", *stream)
 		os.Exit(2)
+	}
+	if *worker {
+		workerMain(s)
+		return
 	}
 	var corp, expl []Case
 	var err error
